@@ -197,6 +197,26 @@ theorem gated_packages (cfg : Cfg) (env : Env) (p : Str) (h : p ∈ packagesOf c
   · left; cases hw : cfg.whitelist <;> simp_all
   · right; simpa using h3
 
+/-- **`gated` (whole run)**: when the gate of the requested module is closed (blacklisted — whatever the whitelist —
+    or missing from a non-empty whitelist), without `--recursive` and without the sqlalchemy submodule, the *only* effects
+    of `exmod(<emit kind>)` are those of announcing / creating the output directory itself: the module contributes no
+    `mkdir`, no `open(…, "a")`, no write. -/
+theorem gated_run (cfg : Cfg) (env : Env) (emit : EmitKind) (announce : Bool) (fs : FS)
+    (hclosed : proceed cfg.blacklist cfg.whitelist (modPathOf (rpartition cfg.module ['.']).1 cfg.module) = false)
+    (hrec : cfg.recursive = false) (hsql : (emit.isSql && cfg.sqlSub) = false) :
+    ∀ e ∈ (exmodStr cfg env emit announce fs).trace, e ∈ (announceOut cfg fs).trace :=
+  gated_exmodStr cfg env emit announce fs hclosed hrec hsql
+
+/-- non-vacuity of `gated_run`: `-m p.a --blacklist p.a --whitelist p.a` (a module in both lists) on the re-exporting
+    package: the whole run is the one `mkdir` of the output directory -/
+example : trace { cfgRe c!"/o/d" false with module := c!"p.a", blacklist := [c!"p.a"], whitelist := [c!"p.a"] } envRe fsRe
+    = [.mkdir c!"/o/d"] := by decide +kernel
+
+/-- **negation for fully-qualified names** (known finding C20-blacklist-top-undotted): `-m p --blacklist p` — the gate
+    compares `.p`, so the blacklisted module is emitted all the same. -/
+theorem gated_fqn_fails_undotted :
+    Effect.openW c!"/o/d/a.py" ∈ trace { cfgRe c!"/o/d" false with blacklist := [c!"p"] } envRe fsRe := by decide +kernel
+
 /-- non-vacuity of the gate theorems: a module in both lists, and one missing from a non-empty whitelist -/
 example : proceed [c!"p.sub"] [c!"p.sub"] (modPathOf c!"p" c!"p.sub") = false := by decide
 example : proceed [] [c!"p.other"] (modPathOf c!"p" c!"p.sub") = false := by decide
